@@ -115,6 +115,17 @@ def c02_oracle(case):
     if "time" not in seen or seen["time"].shape != (n,) or not np.allclose(seen["time"], t, rtol=1e-12, atol=1e-15 / SR) or seen["kw"] != kw:
         out.append("arb_func did not pass the time axis k/SR and the keyword arguments unchanged")
     chk("arb_func", res, 2.0 * t + 1.25)
+
+    # a user function may scribble on the array it is given: later calls must still get a fresh k/SR axis
+    def scribbler(time, **kw):
+        time *= 3.0
+        return time
+    PA.arb_func(scribbler, {}, SR, n)
+    seen.clear()
+    PA.arb_func(probe, kw, SR, n)
+    if "time" not in seen or not np.allclose(seen["time"], t, rtol=1e-12, atol=1e-15 / SR):
+        out.append(f"arb_func(SR={SR}, npts={n}) handed over a time axis that an earlier user function had modified in place")
+    chk("sine after arb_func", PA.sine(f, a, o, ph, SR, n), a * np.sin(2 * np.pi * f * t + ph) + o, abs(a) + abs(o))
     return out
 
 
